@@ -76,7 +76,10 @@ pub fn gen(ctx: &mut Ctx) {
     for d in ["", ".", "..", "com", "co.uk", "www.ck", "x.www.ck", "a.ck", "ck", "a.b.ck", "city.kobe.jp", "x.city.kobe.jp",
               "a.kobe.jp", "b.a.kobe.jp", "kobe.jp", "jp", "example.com.", ".example.com", "a..com", "localhost",
               "EXAMPLE.COM", "example.Co.Uk", "xn--55qx5d.cn", "公司.cn", "foo.公司.cn", "a.b.c.d.e.f.g.h.com",
-              "notatld", "a.notatld", "b.a.notatld", "com.", "..com", "a.b..c", "1.2.3.4", "[::1]", "a b.com", "*.ck", "!www.ck"] {
+              "notatld", "a.notatld", "b.a.notatld", "com.", "..com", "a.b..c", "1.2.3.4", "[::1]", "a b.com", "*.ck", "!www.ck",
+              // characters other software treats as label separators (IDNA full stops and look-alikes) are ordinary label bytes here
+              "example\u{3002}com", "example\u{ff0e}com", "example\u{ff61}com", "a\u{3002}b.co.uk", "www\u{ff0e}city.kobe.jp", "x.y\u{ff61}", "\u{3002}", "\u{3002}com",
+              "a\u{2024}com", "a\u{fe52}com", "a\u{b7}com", "a.\u{3002}.com", "com\u{3002}", "😀.com", "a.😀", "\u{10ffff}.ck"] {
         lookups(ctx, d);
         ctx.stat("psl.corpus");
     }
@@ -100,12 +103,24 @@ pub fn gen(ctx: &mut Ctx) {
         { let mut v = base.clone(); v[0] = rand_label(ctx); variants.push(v); }
         if *kind == 2 { variants.push(labels.clone()); }
         if ctx.rng.below(10) == 0 { let mut v = base.clone(); v[0] = v[0].to_uppercase(); variants.push(v); }
+        // one separator of a variant replaced by a character that only looks like (or is IDNA-equivalent to) a dot
+        if ctx.rng.below(4) == 0 {
+            let v = variants[ctx.rng.below(variants.len() as u64) as usize].clone();
+            if v.len() > 1 {
+                let at = ctx.rng.below(v.len() as u64 - 1) as usize;
+                let dot = *ctx.rng.pick(&['\u{3002}', '\u{ff0e}', '\u{ff61}', '\u{2024}', '\u{fe52}', '\u{b7}', '\u{1f600}']);
+                let mut s = String::new();
+                for (i, l) in v.iter().enumerate() { s.push_str(l); if i + 1 < v.len() { if i == at { s.push(dot) } else { s.push('.') } } }
+                lookups(ctx, &s);
+                ctx.stat("psl.unicode_separator");
+            }
+        }
         for v in variants { lookups(ctx, &v.join(".")); ctx.stat("psl.rule_variants"); }
     }
 
     // ---- arbitrary strings
     let n = if ctx.thorough { 20000 } else { 1500 };
-    let alphabet: Vec<char> = "abcxyz019-._.*!AZ éß公司\u{0}".chars().collect();
+    let alphabet: Vec<char> = "abcxyz019-._.*!AZ éß公司\u{0}\u{3002}\u{ff0e}\u{ff61}\u{1f600}".chars().collect();
     for _ in 0..n {
         let len = match ctx.rng.below(12) { 0 => 0, 1 => ctx.rng.range(1000, 10000), 2 => ctx.rng.range(60, 300), _ => ctx.rng.range(1, 30) } as usize;
         let mut s = String::new();
@@ -114,7 +129,7 @@ pub fn gen(ctx: &mut Ctx) {
             let c = match mode {
                 0 => *ctx.rng.pick(&alphabet),
                 1 => if ctx.rng.below(5) == 0 { '.' } else { (b'a' + ctx.rng.below(26) as u8) as char },
-                2 => char::from_u32(ctx.rng.below(0x3000) as u32).unwrap_or('.'),
+                2 => char::from_u32(if ctx.rng.below(4) == 0 { ctx.rng.below(0x110000) } else { ctx.rng.below(0x3100) } as u32).unwrap_or('.'),
                 _ => if ctx.rng.below(3) == 0 { '.' } else { *ctx.rng.pick(&alphabet) },
             };
             s.push(c);
